@@ -188,6 +188,9 @@ func main() {
 		}
 		switch op {
 		case "new":
+			if cfg := hx.Str(s, "cfg"); cfg != os.Getenv("VERIF_STAT_CFG") {
+				hx.Fatal("trace %d wants statistic configuration %q, the process runs with %q", hx.Int(s, "tr"), cfg, os.Getenv("VERIF_STAT_CFG"))
+			}
 			r = &run{tr: hx.Int(s, "tr"), unit: hx.Int(s, "unit"), clk: clk}
 			curRun = r
 			if r.unit == 0 {
